@@ -11,8 +11,8 @@ import (
 
 var debugCache = os.Getenv("VRT_DEBUG_CACHE") != ""
 
-// maxSeen bounds the state cache of one scenario (about 0.6 GiB per worker process).
-const maxSeen = 4_000_000
+// maxSeen bounds the state cache of one scenario (about 1.1 GiB per worker process).
+const maxSeen = 8_000_000
 var debugIns = map[uint64]string{}
 
 // Budget bounds the deviations from the default execution: P preemptions,
